@@ -243,6 +243,23 @@ func runC19(r *Run) {
 		})
 		r.Check(ok, "C19.4", name+"(response-channel)", w.Pos(fn.Pos()), "the response channel has capacity 1, so the kernel's reply never blocks on a departed caller")
 	}
+	// what leaves the kernel goroutine is a copy: the slice Buffered hands to readers is built by
+	// appending the pending transactions to the caller's storage, never the pending list itself
+	// (or a re-slice / Clip of it), which later Rebase compaction and the reader would share
+	if fn := findWS(w, "Buffered"); fn != nil {
+		a := w.AU(fn)
+		n := 0
+		for _, ret := range a.Returns() {
+			n++
+			alias := aliasesField(ret.Results[0], "Txs", 0)
+			r.Check(!alias, "C19.4", fmt.Sprintf("workingState.Buffered#return%d(copy)", n), w.InstrPos(ret), "the returned slice must not alias the pending list: "+truncate(a.sh.Of(ret.Results[0]).String(), 120))
+		}
+		if n == 0 {
+			r.Fail("C19.4", "workingState.Buffered#return(copy)", w.Pos(fn.Pos()), "no return found")
+		}
+	} else {
+		r.Fail("C19.4", "workingState.Buffered", "", "not found")
+	}
 	r.Expect("C19.1", 3, "apply-before-append")
 	r.Expect("C19.2", 9, "threading and rebase")
 	r.Expect("C19.3", 6, "writers")
@@ -292,4 +309,50 @@ func loopOf(b *ssa.BasicBlock) map[*ssa.BasicBlock]bool {
 		}
 	}
 	return out
+}
+
+// findWS finds the (generic) workingState method by name.
+func findWS(w *World, name string) *ssa.Function {
+	for _, fn := range w.FuncsInPkg("gdriver/gtxbuf") {
+		if fn.Name() == name && fn.Signature.Recv() != nil && strings.Contains(fn.Signature.Recv().Type().String(), "workingState") {
+			return fn
+		}
+	}
+	return nil
+}
+
+// aliasesField: the slice value shares its backing array with the receiver's field:
+// the field itself, a re-slice, or the result of a pass-through (slices.Clip/Grow, append with
+// the field as its first argument).
+func aliasesField(v ssa.Value, field string, depth int) bool {
+	if v == nil || depth > 8 {
+		return false
+	}
+	switch x := v.(type) {
+	case *ssa.Slice:
+		return aliasesField(x.X, field, depth+1)
+	case *ssa.ChangeType:
+		return aliasesField(x.X, field, depth+1)
+	case *ssa.Phi:
+		for _, e := range x.Edges {
+			if aliasesField(e, field, depth+1) {
+				return true
+			}
+		}
+	case *ssa.UnOp:
+		if fa, ok := x.X.(*ssa.FieldAddr); ok && fieldName(fa.X.Type(), fa.Field) == field {
+			return true
+		}
+		if rs := reachingStore(x); rs != nil {
+			return aliasesField(rs, field, depth+1)
+		}
+	case *ssa.Call:
+		if b, ok := x.Call.Value.(*ssa.Builtin); ok && b.Name() == "append" {
+			return aliasesField(x.Call.Args[0], field, depth+1)
+		}
+		if _, n := calleeName(&x.Call); strings.HasPrefix(n, "slices.Clip") || strings.HasPrefix(n, "slices.Grow") || strings.HasPrefix(n, "slices.Compact") || strings.HasPrefix(n, "slices.DeleteFunc") {
+			return aliasesField(x.Call.Args[0], field, depth+1)
+		}
+	}
+	return false
 }
